@@ -28,6 +28,8 @@ PSEUDO_EXC = {
     # pseudo classes for "some exception the contract does not name": (bases)
     'OtherException': (Exception,),            # an Exception that is none of the classes named in edzed
     'OtherBaseException': (BaseException,),
+    'StoredException': (Exception,),           # `raise <exception object kept in a field>`: an Exception other than CancelledError
+    'StoredBaseException': (BaseException,),   # ... a BaseException that is neither
 }
 
 
